@@ -17,6 +17,7 @@ var sendWorkers = []string{"transports.(*polling).send", "transports.(*websocket
 
 func init() {
 	register("C01", func(c *core.Ctx, tier string) {
+		pollInstalledOnlyWhileClientIsThere(c, "C01.25")
 		checkUnderFlushMu(c, "C01.21")
 		jsonpNoBinary(c, "C01.22")
 		wtCandidateRevision(c, "C01.23")
@@ -421,6 +422,32 @@ func kindSelection(c *core.Ctx, R string, u *core.Unit, cl *core.Call, pkgOfCons
 		case 1:
 			text = &as[i]
 		}
+	}
+	isString := func(x *core.Unit, br core.Branch) int {
+		if br.IsCase {
+			return 0
+		}
+		d, k := x.SingleDef(br.Cond)
+		if !k {
+			return 0
+		}
+		te, isT := d.(*core.TupleElem)
+		if !isT || te.Index != 1 {
+			return 0
+		}
+		ta, isTA := ast.Unparen(te.X).(*ast.TypeAssertExpr)
+		if !isTA || ta.Type == nil {
+			return 0
+		}
+		if t := x.Info().TypeOf(ta.Type); t != nil && strings.HasSuffix(t.String(), "types.StringBuffer") {
+			return 1
+		}
+		return 0
+	}
+	// the selection may have been extracted into a private helper that returns the two constants
+	if len(as) == 1 && helperSelectsConst(c, u, as[0].Rhs, isString, 1, 2) {
+		c.Check(R, keyf("%s/%s-kind", u.Key, what), cl.Pos(), true, "Text iff the encoded buffer is a *types.StringBuffer, Binary otherwise (selected by a helper)")
+		return
 	}
 	ok := deflt != nil && text != nil && len(as) == 2 && g.Dominates(deflt.Loc, cl.Loc)
 	if ok && g.CanFollow(cl.Loc, cl.Loc) {
